@@ -5,6 +5,7 @@ import (
 	"errors"
 	"fmt"
 	"os"
+	"sync/atomic"
 	"testing"
 	"time"
 
@@ -322,10 +323,26 @@ func TestC20_GsxHooks(t *testing.T) {
 				r.gs.Complete(id, nil)
 			}
 		}()
-		// the handler behaves like the manager for a cancel: it releases the transport channel
+		// the handler behaves like the manager for a cancel: it releases the transport channel.
+		// For any other message the manager queries the channel's state machine (GetByID) and
+		// waits for the answer; when that machine is just then running its cleanup handler
+		// (the channel is completing, failing or being cancelled), the answer comes after
+		// the handler's CleanupChannel call on the transport has returned.
+		fsmCleaningUp := rapid.Bool().Draw(t, "stateMachineInCleanupHandler")
+		var armed int32 // set once the channel is set up
 		r.ev.OnCall = func(c dbl.EvCall) {
-			if c.Msg != nil && c.Msg.IsCancel() && c.Kind == "request" {
+			if c.Msg == nil || (c.Kind != "request" && c.Kind != "response") {
+				return
+			}
+			if c.Msg.IsCancel() && c.Kind == "request" {
 				r.tr.CleanupChannel(c.Chid)
+			} else if fsmCleaningUp && atomic.LoadInt32(&armed) == 1 {
+				done := make(chan struct{})
+				go func() {
+					defer close(done)
+					r.tr.CleanupChannel(c.Chid)
+				}()
+				<-done
 			}
 		}
 		role := rapid.SampledFrom(roles).Draw(t, "role")
@@ -351,8 +368,9 @@ func TestC20_GsxHooks(t *testing.T) {
 		if c.current != nil && rapid.Bool().Draw(t, "onCurrentRequest") {
 			id = *c.current
 		}
-		desc := fmt.Sprintf("%s hook carrying %s in %s (channel %s, established=%v)", hook, kind, name, role, established)
+		desc := fmt.Sprintf("%s hook carrying %s in %s (channel %s, established=%v, state machine in its cleanup handler=%v)", hook, kind, name, role, established, fsmCleaningUp)
 		m.logf("%s", desc)
+		atomic.StoreInt32(&armed, 1)
 		ok := within(func() {
 			switch hook {
 			case "incoming-request":
@@ -364,6 +382,9 @@ func TestC20_GsxHooks(t *testing.T) {
 			}
 		})
 		if !ok {
+			if fsmCleaningUp && !msg.IsCancel() {
+				m.fail("C20/hook-holds-channel-lock-while-manager-waits-for-state-machine", "%s did not return within %s: the manager waits for the channel's state machine, whose cleanup handler waits in CleanupChannel for the channel lock that the hook holds", desc, watchdog)
+			}
 			m.fail("C20/gs-incoming-request/cancel-self-deadlock", "%s did not return within %s", desc, watchdog)
 		}
 		// the transport is still usable afterwards
@@ -371,7 +392,7 @@ func TestC20_GsxHooks(t *testing.T) {
 			m.fail("C20/transport-wedged", "transport calls block after %s", desc)
 		}
 		sp.Eval()
-		fp := stats.FP("gsx-hooks", hook, kind, name, established)
+		fp := stats.FP("gsx-hooks", hook, kind, name, established, fsmCleaningUp)
 		sp.Nontrivial(fp)
 		sp.Class("gsx_hook_x_message_kind")
 		if sp.WantSample() {
